@@ -154,6 +154,24 @@ fn gen_case(rng: &mut Rng, cli_ranges: bool) -> (Vec<Rec>, Option<Vec<Rec>>, Cov
         alt: alt.is_some(),
     };
     let mut cfg = cfg;
+    if rng.chance(1, 10) {
+        // a histogram whose span bin_size * (bin_count - 1) reaches or passes 2^31 / 2^32 (legal: the CLI only asks for >= 5):
+        // every multiplicity is far below the bin size, so everything belongs to bin 0 (the product stays below 2^58)
+        let (s, c): (usize, usize) = match rng.usize(0, 9) {
+            0 => (1 << 20, rng.usize(4097, 4100)),
+            1 => (1 << 16, rng.usize(65_537, 65_540)),
+            2 => (1 << 31, rng.usize(5, 9)),
+            3 => (1 << 32, rng.usize(5, 40)),
+            4 => ((1 << 33) + rng.usize(0, 1000), rng.usize(5, 40)),
+            5 => (1 << 40, rng.usize(5, 40)),
+            6 => (u32::MAX as usize, rng.usize(5, 9)),
+            7 => ((1 << 31) - 1, rng.usize(5, 9)),
+            8 => (rng.usize(1 << 22, 1 << 30), rng.usize(1025, 2050)),
+            _ => (1_000_003, rng.usize(4290, 4300)),
+        };
+        cfg.bin_size = s;
+        cfg.bin_count = c;
+    }
     if !cli_ranges && rng.chance(1, 3) {
         // a ceiling so small that the *counting* pass needs several chunks and partitions
         let total: u64 = alt.as_ref().unwrap_or(&recs).iter().map(|r| r.seq.len() as u64).sum();
@@ -206,6 +224,9 @@ pub fn lib(ctx: &Ctx) -> Stats {
         let windows: usize = recs.iter().map(|r| model::windows(&r.seq, cfg.k).len()).sum();
         st.case(windows > 0, mix(idx) ^ hash_bytes(&recs[0].seq));
         st.class(if cfg.mem_gb < 1.0 { "flush-per-record" } else { "flush-once" });
+        if (cfg.bin_size as u128) * (cfg.bin_count as u128 - 1) >= 1u128 << 31 {
+            st.class("histogram span >= 2^31");
+        }
         if cfg.mem_gb < 0.0005 {
             st.class("multi-chunk-counting");
         }
